@@ -14,7 +14,7 @@ CLAIMED = {
         note='Partial: cast_into_memory as a whole and the ABI copy loops are not under contract -- its arms and the store-emitting callees are; the recursion is assumed to meet the frame contract. Trusted: Cranelift store footprints (shims/verus/clif.rs), layout contracts (proved in unit layout), disjointness of distinct slots/objects, operands carry their type\'s width, the by-name member map of struct casts (shim). The copy clause is proved for local definitions (fresh slot) and otherwise only checked by the bounded stand-in.',
         ref='DESIGN.md 5 (C02)'),
     'C03': dict(
-        text="Deductive proof over the real text of run_defers_to_label, break_to_label, and the lifted arms Stmt::Defer, Stmt::Continue, the start and the end of Expr::Block, the Expr::While arm and the failing branch of Expr::Propagate (`.try`), with ghost state (the sequence of expressions whose code has been emitted; the set of labels that may be jumped to): a reached defer is recorded last in the frame of its block and does not run then; when a block is left through its end the defers of its frame run there (before the jump to the exit block, which runs none), last reached first, exactly once, and the frame is gone; a break / return / failing `.try` runs the defers reached so far in the block it names and in every block nested in it, innermost first, `continue` those of the blocks inside the loop body, and the frame stack is left as it was; every labelled block and every loop has its own frame while its body is compiled (frame invariant), so unwinding stops at the construct being left and never runs defers of blocks that are not being left -- for frame stacks of any depth and any number of defers. BOUNDED stand-in defer_exec: every nest of at most 2 (quick) / 3 (thorough) constructs out of {block, labelled block, while, if} with two defers per level and one jump (break to each label, unlabelled break, continue, return, failing .try, none), taken and not taken, is compiled by the compiler built from the tree, executed, and its output compared with an interpreter of the property statement.",
+        text="Deductive proof over the real text of run_defers_to_label, break_to_label, and the lifted arms Stmt::Defer, Stmt::Continue, the start and the end of Expr::Block, the Expr::While arm and the failing branch of Expr::Propagate (`.try`), with ghost state (the sequence of expressions whose code has been emitted; the set of labels that may be jumped to): a reached defer is recorded last in the frame of its block and does not run then; when a block is left through its end the defers of its frame run there (before the jump to the exit block, which runs none), last reached first, exactly once, and the frame is gone; a break / return / failing `.try` runs the defers reached so far in the block it names and in every block nested in it, innermost first, `continue` those of the blocks inside the loop body, and the frame stack is left as it was; every labelled block and every loop has its own frame while its body is compiled (frame invariant), so unwinding stops at the construct being left and never runs defers of blocks that are not being left -- for frame stacks of any depth and any number of defers. BOUNDED stand-in defer_exec: every nest of at most 2 (quick) / 3 (thorough) constructs out of {block, labelled block, while, if} with two defers per level (plus, per level, the variant in which that level registers none) and one jump (break to each label, unlabelled break, continue, return, failing .try, none), taken and not taken, is compiled by the compiler built from the tree, executed, and its output compared with an interpreter of the property statement.",
         note='Partial. Four genuine defects were found on the pinned tree and repaired in /repo (break out of a loop ran all enclosing defers; continue ran none; a break to a block ran also the defers of that block that were never reached; a break inside a while condition ran all enclosing defers). Assumed: the recursive compile_expr emits the code of its expression at the insertion point and keeps its own pushes and pops balanced (stub); break / continue name only enclosing labels (hir); a deferred expression does not jump out of itself; Cranelift control flow shims. Not covered: the `return` call site, hir::lower_defer / resolve_last_label, that the emitted code of a defer runs once at run time when blocks are re-entered (loops re-run their body code, which is the intended meaning).',
         ref='DESIGN.md 5 (C03)'),
     'C08': dict(
@@ -30,7 +30,7 @@ CLAIMED = {
         note='Trusted: Cranelift control-flow shim (facts of a block = facts of its single incoming edge, shims/verus/clif_cf.rs), libc puts/exit, cast_ty_to_cranelift contract (proved in unit numeric), layout contracts (unit layout). Assumed path conditions of the lifted ranges: operands carry their types, source is the address of the array/slice value, a slice value holds (length, data pointer). Not covered: the recursive compile_expr calls that produce the operands, the pointer-deref loop in front of the range, the nullable-pointer branch of #unwrap, get_tagged_union_discrim, unwrap_sum_ty (assumed to read at most the payload), message texts.',
         ref='DESIGN.md 5 (C10)'),
     'C11': dict(
-        text="Run-time half: deductive proof over the real text of the tagged branch of the Expr::Switch arm of compile_expr_with_args (lifted mechanically, from the tag load to the emission of the jump table): the value switched on is the byte at the discriminant offset of the scrutinee's layout, and the jump table sends the discriminant of every arm's variant to that arm's block and every other tag to the default block (lemmas: with pairwise different variants arm i's discriminant reaches block i; a tag that is no arm's discriminant is not in the table). Checker half (inside infer_expr, out of the verifier's reach): BOUNDED stand-in on the real front end -- every sequence of at most 4 (quick) / 5 (thorough) arms over the variants of an enum and a non-variant, with and without a default arm, on an enum and on a distinct wrapper of it; accepted iff only variants, each at most once, all of them or a default arm. BOUNDED stand-in switch_exec (dispatch clause at run time): a 6-variant enum with custom discriminants (7, 200) and its distinct wrapper, ?u32 and str!u32: all-arms switches (qualified and shorthand) and every arm subset of size <= 2 with a default arm, run on every variant through the compiler built from the tree; the arm that ran and the payload it saw are compared with the value.",
+        text="Run-time half: deductive proof over the real text of the tagged branch of the Expr::Switch arm of compile_expr_with_args (lifted mechanically, from the tag load to the emission of the jump table): the value switched on is the byte at the discriminant offset of the scrutinee's layout, and the jump table sends the discriminant of every arm's variant to that arm's block and every other tag to the default block (lemmas: with pairwise different variants arm i's discriminant reaches block i; a tag that is no arm's discriminant is not in the table). Checker half (inside infer_expr, out of the verifier's reach): BOUNDED stand-in on the real front end -- every sequence of at most 4 (quick) / 5 (thorough) arms over the variants of an enum and a non-variant, with and without a default arm, on an enum and on a distinct wrapper of it; accepted iff only variants, each at most once, all of them or a default arm. BOUNDED stand-in switch_exec (dispatch clause at run time): a 6-variant enum with custom discriminants (7, 200) and its distinct wrapper, ?u32, ?^u32 (both arm orders) and str!u32: all-arms switches (qualified and shorthand) and every arm subset of size <= 2 with a default arm, run on every variant through the compiler built from the tree; the arm that ran and the payload it saw are compared with the value.",
         note='Partial. Assumed: cranelift_frontend::Switch as documented (shim), get_tagged_union_discrim through an uninterpreted name, the arms carry pairwise different variants (that is the checker half). Not covered: the code of the arm blocks, the binding of the switch argument to the payload (unwrap_sum_ty), the nullable-pointer branch, optionals / error unions in the bounded half, lower_switch (MultipleDefaultArms, RegularArmAfterDefault). A genuine defect was found by the bounded half and repaired in /repo: a switch over a distinct enum made the checker panic.',
         ref='DESIGN.md 5 (C11)'),
     'C13': dict(
@@ -42,7 +42,7 @@ CLAIMED = {
         note='Trusted: global table modelled rely/guarantee (reads return what calc_single wrote), Intern canonicity, listed rewrites. Domain: language int/float widths, nested sizes <= 1 GiB. The host C compiler comparison is not part of the proof.',
         ref='DESIGN.md 5 (C17)'),
     'C18': dict(
-        text='Deductive proof over the real text of simple_id, simple_id_with_align, UIDGenerator::generate_unique_id and the id-assigning match of to_type_id: for every type, the runtime type id decodes (with the masks core/src/meta.capy uses) to the kind, size, alignment and sign/mutability flag of the layout tables; compound ids carry their kind and, as index, the row the type gets in the per-kind reflection table (the number of types of that kind registered before it); ids of simple types are injective -- except isize/i64 and usize/u64, a recorded known finding. Unit any_cast adds the `any` clause: cast_into_memory keeps the ORIGINAL source type and its `(_, Ty::Any)` arm stores exactly that type\'s id (4 bytes at offset 0 of the any value).',
+        text='Deductive proof over the real text of simple_id, simple_id_with_align, UIDGenerator::generate_unique_id and the id-assigning match of to_type_id: for every type, the runtime type id decodes (with the masks core/src/meta.capy uses) to the kind, size, alignment and sign/mutability flag of the layout tables; compound ids carry their kind and, as index, the row the type gets in the per-kind reflection table (the number of types of that kind registered before it); ids of simple types are injective -- except isize/i64 and usize/u64, a recorded known finding. Unit any_cast adds the `any` clause: cast_into_memory keeps the ORIGINAL source type and its `(_, Ty::Any)` arm stores exactly that type\'s id (4 bytes at offset 0 of the any value). BOUNDED stand-in reflect_exec: what core.meta reports for 34 types (size, alignment, stride; member names, offsets and types; array length; integer width and sign; pointer mutability; is_non_zero and tag offset of optionals; tag offset of error unions and enums; variant count; sub types) and the 34 x 34 equality matrix of the type values, printed by a program compiled by the compiler built from the tree and compared with the documented representation rules.',
         note='Partial: type-id and any-carries-type clauses only. compile_meta_builtins (the data reflection reads) and core/src/meta.capy are not under contract; the memo lookup of to_type_id (iterator find) is assumed; recursive calls are stubs.',
         ref='DESIGN.md 5 (C18)'),
     'C19': dict(
